@@ -154,6 +154,10 @@ class BlockChain(object):
         def iterate() -> Generator[tuple[Any, Any], None, None]:
             for header in header_iter:
                 h = header.hash()
+                locked_index = self.hash_to_index_lookup.get(h)
+                if locked_index is not None and locked_index < len(self._locked_chain):
+                    # already locked: it must not re-enter the unlocked search
+                    continue
                 self.weight_lookup[h] = header.difficulty
                 self.unlocked_block_storage[h] = header
                 yield h, header.previous_block_hash
